@@ -157,7 +157,7 @@ func checkSemanticValidation(c *Ctx, p *packages.Package) {
 			if !ok || !pred(ifs.Cond) {
 				return true
 			}
-			ast.Inspect(ifs.Body, func(m ast.Node) bool {
+			deepInspectNode(p, ifs.Body, 2, func(m ast.Node) bool {
 				as, ok := m.(*ast.AssignStmt)
 				if !ok || len(as.Lhs) != 1 || len(as.Rhs) != 1 {
 					return true
@@ -295,9 +295,29 @@ func checkSemanticValidation(c *Ctx, p *packages.Package) {
 	if fd := FuncDecl(p, mappers.Obj().Name(), "ToRange"); fd != nil {
 		curFd = fd
 		c.Analysed(funcKey(p, fd))
+		// the comparison, under a nil test of the bound: in the same condition or in an enclosing if statement
 		withNil := func(cond ast.Expr) bool {
-			s := types.ExprString(cond)
-			return descending(cond) && strings.Contains(s, "!= nil")
+			if !descending(cond) {
+				return false
+			}
+			if strings.Contains(types.ExprString(cond), "!= nil") {
+				return true
+			}
+			enclosed := false
+			ast.Inspect(fd.Body, func(n ast.Node) bool {
+				outer, ok := n.(*ast.IfStmt)
+				if !ok || !strings.Contains(types.ExprString(outer.Cond), "!= nil") {
+					return true
+				}
+				ast.Inspect(outer.Body, func(m ast.Node) bool {
+					if inner, ok := m.(*ast.IfStmt); ok && inner.Cond == cond {
+						enclosed = true
+					}
+					return true
+				})
+				return true
+			})
+			return enclosed
 		}
 		c.Check("R9.2", pk+": a repetition range whose minimum exceeds a present maximum is recorded as an error", fd.Pos(), records(fd, withNil), "no `if up != nil && low > *up { m.errors = errors.Join(...) }`", "a{3,1}")
 	} else {
@@ -330,17 +350,24 @@ func checkSemanticValidation(c *Ctx, p *packages.Package) {
 				return true
 			}
 			nGuards++
-			okVar := ""
-			if as, isAs := ifs.Init.(*ast.AssignStmt); isAs && len(as.Lhs) == 2 {
-				if id, isID := as.Lhs[1].(*ast.Ident); isID {
-					okVar = id.Name
+			okVars := map[string]bool{}
+			ast.Inspect(fd.Body, func(m ast.Node) bool {
+				if as, isAs := m.(*ast.AssignStmt); isAs && len(as.Lhs) == 2 && len(as.Rhs) == 1 {
+					if _, isTA := ast.Unparen(as.Rhs[0]).(*ast.TypeAssertExpr); isTA {
+						if id, isID := as.Lhs[1].(*ast.Ident); isID {
+							okVars[id.Name] = true
+						}
+					}
 				}
-			}
+				return true
+			})
 			var presence func(e ast.Expr) bool
 			presence = func(e ast.Expr) bool {
 				switch x := ast.Unparen(e).(type) {
+				case *ast.UnaryExpr:
+					return x.Op == token.NOT && presence(x.X)
 				case *ast.Ident:
-					return x.Name == okVar
+					return okVars[x.Name]
 				case *ast.BinaryExpr:
 					if x.Op == token.LAND {
 						return presence(x.X) && presence(x.Y)
@@ -360,21 +387,37 @@ func checkSemanticValidation(c *Ctx, p *packages.Package) {
 	// Parse returns m.errors when non-nil, before using the result
 	if fd := FuncDecl(p, "", "Parse"); fd != nil {
 		c.Analysed(funcKey(p, fd))
-		var errIf *ast.IfStmt
+		// a return of (nil, <error field>) guarded by `<error field> != nil` (an if statement or a case of a tagless switch),
+		// placed before the first use of the parse result
+		var errIf ast.Node
 		var firstUse token.Pos
+		guardOK := func(cond ast.Expr) bool {
+			if b, ok := ast.Unparen(cond).(*ast.BinaryExpr); ok && b.Op == token.NEQ && isNilExpr(info, b.Y) {
+				if sel, ok := ast.Unparen(b.X).(*ast.SelectorExpr); ok && isErrField(info, sel) {
+					return true
+				}
+			}
+			return false
+		}
+		returnsErr := func(list []ast.Stmt) bool {
+			for _, st := range list {
+				if r, ok := st.(*ast.ReturnStmt); ok && len(r.Results) == 2 {
+					if rs, ok := ast.Unparen(r.Results[1]).(*ast.SelectorExpr); ok && isErrField(info, rs) && isNilExpr(info, r.Results[0]) {
+						return true
+					}
+				}
+			}
+			return false
+		}
 		ast.Inspect(fd.Body, func(n ast.Node) bool {
 			switch s := n.(type) {
 			case *ast.IfStmt:
-				if b, ok := ast.Unparen(s.Cond).(*ast.BinaryExpr); ok && b.Op == token.NEQ && isNilExpr(info, b.Y) {
-					if sel, ok := ast.Unparen(b.X).(*ast.SelectorExpr); ok && isErrField(info, sel) {
-						for _, st := range s.Body.List {
-							if r, ok := st.(*ast.ReturnStmt); ok && len(r.Results) == 2 {
-								if rs, ok := ast.Unparen(r.Results[1]).(*ast.SelectorExpr); ok && isErrField(info, rs) && isNilExpr(info, r.Results[0]) {
-									errIf = s
-								}
-							}
-						}
-					}
+				if guardOK(s.Cond) && returnsErr(s.Body.List) && errIf == nil {
+					errIf = s
+				}
+			case *ast.CaseClause:
+				if len(s.List) == 1 && guardOK(s.List[0]) && returnsErr(s.Body) && errIf == nil {
+					errIf = s
 				}
 			case *ast.SelectorExpr:
 				if s.Sel.Name == "Result" && !firstUse.IsValid() {
@@ -410,46 +453,110 @@ func mapperSkeleton(p *packages.Package, fd *ast.FuncDecl) []string {
 		}
 		return s
 	}
-	ast.Inspect(fd.Body, func(n ast.Node) bool {
+	// what the mapper takes apart and what it can say, wherever it is written: helper functions of the package that the mapper
+	// calls are looked into, the order of the statements and the spelling of the conditions play no part
+	set := map[string]bool{}
+	deepInspect(p, fd, 3, func(n ast.Node) bool {
 		switch s := n.(type) {
 		case *ast.CallExpr:
 			if sel, ok := s.Fun.(*ast.SelectorExpr); ok && sel.Sel.Name == "Get" && len(s.Args) == 1 {
 				if k, ok := constInt(info, s.Args[0]); ok {
-					out = append(out, fmt.Sprintf("get%d", k))
+					set[fmt.Sprintf("get%d", k)] = true
 				}
 			}
-			if fo, ok := objOf(info, s.Fun).(*types.Func); ok && fo.Pkg() != nil && fo.Pkg().Path() == "fmt" && len(s.Args) > 0 {
+			if fo, ok := objOf(info, s.Fun).(*types.Func); ok && fo.Pkg() != nil && (fo.Pkg().Path() == "fmt" || fo.Pkg().Path() == "errors") && len(s.Args) > 0 {
 				if f, ok := constStr(info, s.Args[0]); ok {
-					out = append(out, "fmt:"+f)
+					set["msg:"+f] = true
 				}
 			}
 		case *ast.TypeAssertExpr:
 			if s.Type != nil {
-				out = append(out, "assert:"+abstractType(info.TypeOf(s.Type)))
+				set["assert:"+abstractType(info.TypeOf(s.Type))] = true
 			}
-		case *ast.IfStmt:
-			cond := types.ExprString(s.Cond)
-			out = append(out, "if:"+cond)
 		case *ast.CaseClause:
 			for _, e := range s.List {
 				if tv, ok := info.Types[e]; ok && tv.Value != nil {
-					out = append(out, "case:"+tv.Value.ExactString())
-				} else if tv.IsType() {
-					out = append(out, "case:"+abstractType(tv.Type))
+					set["case:"+tv.Value.ExactString()] = true
 				}
 			}
 		case *ast.ReturnStmt:
 			if len(s.Results) == 2 {
-				if tv, ok := info.Types[s.Results[1]]; ok && tv.Value != nil {
-					out = append(out, "ret:"+tv.Value.String())
+				if tv, ok := info.Types[s.Results[1]]; ok && tv.Value != nil && tv.Value.String() == "false" {
+					set["rejects"] = true
 				}
-			}
-		case *ast.KeyValueExpr:
-			if id, ok := s.Key.(*ast.Ident); ok && (id.Name == "Pos" || id.Name == "Bag") {
-				out = append(out, id.Name+":"+types.ExprString(s.Value))
 			}
 		}
 		return true
+	})
+	for k := range set {
+		out = append(out, k)
+	}
+	sort.Strings(out)
+	return out
+}
+
+// deepInspect visits the body of fd and, up to the given depth, the bodies of the functions and methods of the same package
+// that it calls (each once), as if they were written in place.
+func deepInspect(p *packages.Package, fd *ast.FuncDecl, depth int, visit func(ast.Node) bool) {
+	info := p.TypesInfo
+	seen := map[*ast.FuncDecl]bool{}
+	var rec func(fd *ast.FuncDecl, d int)
+	rec = func(fd *ast.FuncDecl, d int) {
+		if fd == nil || fd.Body == nil || seen[fd] {
+			return
+		}
+		seen[fd] = true
+		ast.Inspect(fd.Body, func(n ast.Node) bool {
+			if n == nil {
+				return true
+			}
+			if !visit(n) {
+				return false
+			}
+			if call, ok := n.(*ast.CallExpr); ok && d > 0 {
+				if fo, ok := objOf(info, call.Fun).(*types.Func); ok && fo.Pkg() == p.Types {
+					rec(declOfFunc(p, fo), d-1)
+				}
+			}
+			return true
+		})
+	}
+	rec(fd, depth)
+}
+
+// deepInspectNode is deepInspect starting at an arbitrary node.
+func deepInspectNode(p *packages.Package, root ast.Node, depth int, visit func(ast.Node) bool) {
+	info := p.TypesInfo
+	seen := map[*ast.FuncDecl]bool{}
+	var rec func(n ast.Node, d int)
+	rec = func(root ast.Node, d int) {
+		ast.Inspect(root, func(n ast.Node) bool {
+			if n == nil {
+				return true
+			}
+			if !visit(n) {
+				return false
+			}
+			if call, ok := n.(*ast.CallExpr); ok && d > 0 {
+				if fo, ok := objOf(info, call.Fun).(*types.Func); ok && fo.Pkg() == p.Types {
+					if fd := declOfFunc(p, fo); fd != nil && fd.Body != nil && !seen[fd] {
+						seen[fd] = true
+						rec(fd.Body, d-1)
+					}
+				}
+			}
+			return true
+		})
+	}
+	rec(root, depth)
+}
+
+func declOfFunc(p *packages.Package, fo *types.Func) *ast.FuncDecl {
+	var out *ast.FuncDecl
+	AllFuncDecls(p, func(fd *ast.FuncDecl) {
+		if p.TypesInfo.Defs[fd.Name] == types.Object(fo) {
+			out = fd
+		}
 	})
 	return out
 }
@@ -495,8 +602,8 @@ func checkSiblingMappers(c *Ctx, rule string) {
 				}
 			}
 		}
-		c.Check(rule, "sibling mappers "+m+" of the NFA route and the direct route have the same control skeleton", a.Pos(), same,
-			"the two routes validate or decompose this construct differently ("+diff+"): a pattern can be accepted by one route and rejected (or read differently) by the other")
+		c.Check(rule, "sibling mappers "+m+" of the NFA route and the direct route take the same parts, assert the same shapes and report the same errors", a.Pos(), same,
+			"the two routes take this construct apart or reject it differently ("+diff+"): a pattern can be accepted by one route and rejected (or read differently) by the other")
 	}
 	c.Check(rule, "the mapper interface has its 23 methods", token.NoPos, len(names) >= 23, fmt.Sprintf("%d methods", len(names)))
 }
